@@ -72,6 +72,9 @@ func gen(r *hx.Rand, tier string, i int) string {
 				amt := 1 + r.Intn(1000)
 				if r.Chance(8) {
 					amt = 2000000000000 // more than the balance: fails on every node
+				} else if r.Chance(8) {
+					amt = 999999999000 // nearly everything: with a fee, the balance left after the transfer does not cover it -
+					// the VM's writes stay in the (uncommitted) transaction cache and must not survive into the next transaction
 				}
 				ops = append(ops, fmt.Sprintf("ong:%d.%s:%d:%d:%d:%s", a, sh, other(r, a), amt, gp, payer))
 			case x < 62:
@@ -135,4 +138,6 @@ var corpus = []string{
 	// failing on every node: more than the balance, with and without fee
 	"X ong:0.c:1:2000000000000:0:-;ong:1.c:2:2000000000000:2500:-;ong:4.n:2:2000000000000:2500:-;b",
 	"X b;ont:0.c:1:1:0:-;b;b",
+	// the transfer succeeds in the VM, then the balance left does not cover the fee: nothing of the transfer may survive (cache.Reset)
+	"X ong:0.c:1:999999999990:2500:-;ont:1.c:2:1:0:-;b;ong:2.c:3:999999999990:2500:-;b;cwn:4.c:4:0:-;b",
 }
